@@ -49,6 +49,8 @@ type c09Cfg struct {
 	// Bare: the encoder configuration leaves every encoder function nil (the encoders then fall back to their defaults at
 	// the moment of use — which must not be recorded in the configuration shared by all clones)
 	Bare bool `json:"bare,omitempty"`
+	// Console: the io core encodes with the console encoder (its own pooled column encoder, context clone per entry)
+	Console bool `json:"console,omitempty"`
 }
 
 type c09Op struct {
@@ -97,6 +99,15 @@ func c09Gen(r *Rand, tier string, emit func(op any)) {
 			emit(c09Op{K: "prog", Cfg: c09Cfg{Base: base, Wrap: wrap, Bare: true}, Warm: false, Gs: gs})
 		}
 	}
+	for _, console := range []bool{true, false} {
+		// the console encoder under overlapping entries; a locked sink shared by a buffered and a direct core
+		gs := make([][]c09Act, 6)
+		for i := range gs {
+			gs[i] = []c09Act{{A: "log", Lvl: 2, Fe: "plain"}, {A: "logrich"}, {A: "log", Lvl: 0, Fe: "sugarw"}, {A: "sync"}, {A: "log", Lvl: 1, Fe: "plain"}, {A: "logrich"}}
+		}
+		emit(c09Op{K: "prog", Cfg: c09Cfg{Base: "io", Wrap: []string{"named"}, Console: console}, Warm: true, Gs: gs})
+		emit(c09Op{K: "prog", Cfg: c09Cfg{Base: "bwsshared", Wrap: []string{}, Console: console}, Warm: true, Gs: gs})
+	}
 	for _, base := range []string{"combine1", "combine2", "bwsraw"} {
 		gs := make([][]c09Act, 4)
 		for i := range gs {
@@ -105,7 +116,7 @@ func c09Gen(r *Rand, tier string, emit func(op any)) {
 		emit(c09Op{K: "prog", Cfg: c09Cfg{Base: base, Wrap: []string{}}, Warm: true, Gs: gs})
 	}
 	for i := 0; i < n; i++ {
-		cfg := c09Cfg{Base: Pick(r, []string{"obs", "io", "io", "bws", "bwsraw", "combine1", "combine2"}), SlogDepth: Pick(r, []int{0, 0, 3, 5, 6, 7}), Wrap: []string{}}
+		cfg := c09Cfg{Base: Pick(r, []string{"obs", "io", "io", "bws", "bwsraw", "combine1", "combine2", "bwsshared"}), SlogDepth: Pick(r, []int{0, 0, 3, 5, 6, 7}), Wrap: []string{}}
 		nw := r.Intn(5)
 		for j := 0; j < nw; j++ {
 			w := Pick(r, c09Wraps)
@@ -128,6 +139,7 @@ func c09Gen(r *Rand, tier string, emit func(op any)) {
 			}
 		}
 		cfg.Bare = i%3 == 1
+		cfg.Console = i%4 == 2
 		emit(c09Op{K: "prog", Cfg: cfg, Warm: r.Chance(1, 2), Gs: gs})
 	}
 }
@@ -169,24 +181,36 @@ func c09Build(op *c09Op) *c09World {
 		encCfg = zapcore.EncoderConfig{MessageKey: "msg", LevelKey: "level", TimeKey: "ts", NameKey: "logger", CallerKey: "caller", StacktraceKey: "stacktrace"}
 	}
 	var core zapcore.Core = obsCore
+	newEnc := func() zapcore.Encoder {
+		if op.Cfg.Console {
+			return zapcore.NewConsoleEncoder(encCfg)
+		}
+		return zapcore.NewJSONEncoder(encCfg)
+	}
 	switch op.Cfg.Base {
 	case "io":
-		core = zapcore.NewTee(zapcore.NewCore(zapcore.NewJSONEncoder(encCfg), zapcore.Lock(w.sink), w.al), obsCore)
+		core = zapcore.NewTee(zapcore.NewCore(newEnc(), zapcore.Lock(w.sink), w.al), obsCore)
 	case "bwsraw":
 		// BufferedWriteSyncer directly over the unsynchronised sink: its own mutex is all that serialises the destination
 		// ("You don't need to use zapcore.Lock for WriteSyncers with BufferedWriteSyncer"); a small buffer and a short
 		// flush interval make Write-overflow flushes, ticks and explicit Syncs all reach the sink
 		w.bws = &zapcore.BufferedWriteSyncer{WS: w.sink, Size: 256, FlushInterval: 200 * time.Microsecond}
-		core = zapcore.NewTee(zapcore.NewCore(zapcore.NewJSONEncoder(encCfg), w.bws, w.al), obsCore)
+		core = zapcore.NewTee(zapcore.NewCore(newEnc(), w.bws, w.al), obsCore)
 	case "combine1":
 		// zap.CombineWriteSyncers is documented to return a LOCKED WriteSyncer — of one writer as well as of several (it is
 		// what zap.Open and Config.Build put in front of the sinks they open); the sink itself is not synchronised
-		core = zapcore.NewTee(zapcore.NewCore(zapcore.NewJSONEncoder(encCfg), zap.CombineWriteSyncers(w.sink), w.al), obsCore)
+		core = zapcore.NewTee(zapcore.NewCore(newEnc(), zap.CombineWriteSyncers(w.sink), w.al), obsCore)
 	case "combine2":
-		core = zapcore.NewTee(zapcore.NewCore(zapcore.NewJSONEncoder(encCfg), zap.CombineWriteSyncers(w.sink, &c09Sink{}), w.al), obsCore)
+		core = zapcore.NewTee(zapcore.NewCore(newEnc(), zap.CombineWriteSyncers(w.sink, &c09Sink{}), w.al), obsCore)
+	case "bwsshared":
+		// ONE locked sink shared by a buffered core and a direct core (and the error output): every access to the sink,
+		// the buffered syncer's flushes included, must go through that lock
+		locked := zapcore.Lock(w.sink)
+		w.bws = &zapcore.BufferedWriteSyncer{WS: locked, Size: 256, FlushInterval: 300 * time.Microsecond}
+		core = zapcore.NewTee(zapcore.NewCore(newEnc(), w.bws, w.al), zapcore.NewCore(newEnc(), locked, zapcore.WarnLevel), obsCore)
 	case "bws":
 		w.bws = &zapcore.BufferedWriteSyncer{WS: zapcore.Lock(w.sink), Size: 512, FlushInterval: time.Millisecond}
-		core = zapcore.NewTee(zapcore.NewCore(zapcore.NewJSONEncoder(encCfg), w.bws, w.al), obsCore)
+		core = zapcore.NewTee(zapcore.NewCore(newEnc(), w.bws, w.al), obsCore)
 	}
 	l := zap.New(core, zap.ErrorOutput(zapcore.Lock(zapcore.AddSync(&c09Sink{}))))
 	for i, wr := range op.Cfg.Wrap {
